@@ -99,6 +99,22 @@ def corpus(tier):
                                      ('10.0.0.2', 443): lambda: RawOrigin(greeting=[b'hello'])},
                             dns={'h.test': '10.0.0.1', 't.test': '10.0.0.2'}, kinds='', horizon=6000, min_time=7.5,
                             features={'role': 'timed_neighbour', '_dt_busy': 0.01, '_bound': 0}))
+    # the upstream connection pool switch: whatever a mode makes of it, the conversation's outcome is the same
+    pool = []
+    n_before = len(out)
+    take(c4, lambda s: s.features['role'] == 'forward' and s.features['n_requests'] == 2 and not s.features['origins_differ']
+         and s.features['packing'] in ('per_request_wait', 'all_in_one') and s.features.get('connection_header', 'none') == 'none', 4 if q else 16)
+    seen.clear()
+    take(h1, lambda s: s.features['flags'] == 'default' and one_per_response(s), 4 if q else 12)
+    take(t1, lambda s: s.features['flags'] == 'default' and s.features['c2u'] and s.features['u2c'], 2 if q else 6)
+    for s in out[n_before:]:
+        s2 = copy.copy(s)
+        s2.name = s.name + '/conn-pool'
+        s2.flags_args = list(s.flags_args) + ['--enable-conn-pool']
+        s2.features = dict(s.features, conn_pool=True)
+        pool.append(s2)
+    del out[n_before:]
+    out.extend(pool)
     # de-duplicate by name, make mode-neutral
     uniq = {}
     for s in out:
